@@ -61,6 +61,13 @@ CHARGES = [('1', 1.0), ('+1', 1.0), ('-0.25', -0.25), ('1e-1', 0.1), ('0', 0.0),
 WEIGHTS = [('0.5', 0.5), ('2', 2.0), ('1e-1', 0.1), ('+1', 1.0), ('36', 36.0), ('0.125', 0.125)]
 FREE = [('mass', '72'), ('r', 'abc'), ('p', '+1'), ('k', '1e-1')]
 FREE_KEYS = [k for k, _ in FREE]
+# free keys with upper-case letters ("other keys are kept verbatim": `pKa` must not come back as `pka`), mixed with one
+# lower-case key; only subsets with at least one upper-case key are generated from this pool (the others exist already).
+# No key is a case variant of a reserved key (whether `Q=1` is the charge is not documented).
+FREE_UC = [('pKa', '4.5'), ('resName', 'ALA'), ('Tg', '373K'), ('mass', '72')]
+UC_KEYS = [k for k, _ in FREE_UC if k != k.lower()]
+# keys that must not appear on a node unless written: the free keys of both pools and the case-folded spellings
+STRAY_KEYS = FREE_KEYS + UC_KEYS + [k.lower() for k in UC_KEYS] + [k.upper() for k in UC_KEYS]
 
 BOUNDS = {
     'quick': {'charge_spellings': [c for c, _ in CHARGES], 'weight_spellings': [w for w, _ in WEIGHTS],
@@ -96,9 +103,12 @@ def init_worker():
 # --------------------------------------------------------------------------------------------------------
 # bindings and their written forms
 # --------------------------------------------------------------------------------------------------------
-def _subsets(items, max_size):
+def _subsets(items, max_size, need=None):
+    """need: only subsets that contain at least one of these keys"""
     for r in range(0, max_size + 1):
-        yield from itertools.combinations(items, r)
+        for sub in itertools.combinations(items, r):
+            if need is None or any(k in need for k, _ in sub):
+                yield sub
 
 
 def base_forms(q, w, free, max_perm=24):
@@ -187,6 +197,19 @@ ATOM_TEMPLATES = [
     ('[$]CC[NH3+{ann}]', 'N'),
     ('[$]CC(=[O{ann}])[$]', 'O'),
 ]
+# fragments that are ONE atom (the reader of atomistic fragments returns early for them); (text, element, largest reuse
+# count whose base graph the descriptors can serve).  A bracket atom without hydrogens is a one-node graph from the
+# start; `[NH..]` becomes one after the hydrogens are folded in.
+SINGLE_ATOM_TEMPLATES = [
+    ('[$][N{ann}][$]', 'N', 4),
+    ('[N{ann}][$][$]', 'N', 4),
+    ('[$][O{ann}][$]', 'O', 4),
+    ('[$][N{ann}]', 'N', 2),
+    ('[$][N{ann}][$][$]', 'N', 4),
+    ('[$][NH{ann}][$]', 'N', 4),
+    ('[O-{ann}][$]', 'O', 2),
+]
+SINGLE_H_TEMPLATES = ('[$][H{ann}]', '[H{ann}][$]')
 COARSE_TEMPLATES = [
     '[$][#X{ann}][#Y][$]',
     '[#Y][$][#X{ann}][$]',
@@ -209,16 +232,16 @@ def _base_uses(r):
 # --------------------------------------------------------------------------------------------------------
 # case generation
 # --------------------------------------------------------------------------------------------------------
-def _base_bindings(max_free):
+def _base_bindings(max_free, pool=FREE, need=None):
     for q in [None] + CHARGES:
         for w in [None] + WEIGHTS:
-            for free in _subsets(FREE, max_free):
+            for free in _subsets(pool, max_free, need):
                 yield q, w, free
 
 
-def gen_base_read(max_free, templates, thin=1):
+def gen_base_read(max_free, templates, thin=1, pool=FREE, need=None):
     n = 0
-    for q, w, free in _base_bindings(max_free):
+    for q, w, free in _base_bindings(max_free, pool, need):
         for ann, positional in base_forms(q, w, free):
             n += 1
             if n % thin:
@@ -237,7 +260,7 @@ def gen_base_read(max_free, templates, thin=1):
                        'nontrivial': entries >= 2 or positional}
 
 
-def gen_base_resolve(rng, count):
+def gen_base_resolve(rng, count, pool=FREE):
     """1..4 nodes of the same fragment with independent annotations; resolve; look at the returned coarse graph"""
     for _ in range(count):
         r = rng.randint(1, 4)
@@ -246,7 +269,7 @@ def gen_base_resolve(rng, count):
         for i in range(r):
             q = rng.choice([None] + CHARGES)
             w = rng.choice([None] + WEIGHTS)
-            free = tuple(rng.sample(FREE, rng.randint(0, 2)))
+            free = tuple(rng.sample(pool, rng.randint(0, 2)))
             forms = list(base_forms(q, w, free))
             ann, positional = rng.choice(forms)
             exp.append(base_expected('A', q, w, free))
@@ -256,44 +279,48 @@ def gen_base_resolve(rng, count):
         yield {'kind': 'base-resolve', 'text': text, 'expected': exp, 'nontrivial': True}
 
 
-def gen_frag_atom(max_free, reuse, thin=1):
+def gen_frag_atom(max_free, reuse, thin=1, pool=FREE, need=None, templates=None):
+    """templates: default ATOM_TEMPLATES; SINGLE_ATOM_TEMPLATES entries carry the largest usable reuse count"""
+    templates = templates or ATOM_TEMPLATES
     n = 0
     for w in [None] + WEIGHTS:
         for x in [None, 'R', 'S']:
-            for free in _subsets(FREE, max_free):
+            for free in _subsets(pool, max_free, need):
                 for ann, positional in atom_forms(w, x, free):
                     n += 1
                     if n % thin:
                         continue
                     entries = (1 if w else 0) + (1 if x else 0) + len(free)
-                    tmpl, element = ATOM_TEMPLATES[n % len(ATOM_TEMPLATES)]
+                    tmpl, element = templates[n % len(templates)][:2]
                     r = reuse[n % len(reuse)]
+                    if len(templates[n % len(templates)]) > 2:
+                        r = min(r, templates[n % len(templates)][2])
                     base, uses = _base_uses(r)
                     text = '%s.{#F=%s,#G=[$]CC[$]}' % (base, tmpl.format(ann=ann))
                     yield {'kind': 'frag-atom', 'text': text, 'element': element, 'uses': uses,
                            'expected': atom_expected(w, x, free), 'nontrivial': entries >= 2 or positional or r > 1}
 
 
-def gen_frag_hydrogen(reuse):
+def gen_frag_hydrogen(reuse, pool=FREE, need=None, templates=('[$]C([H{ann}])[$]', '[H{ann}]C([$])[$]', '[$]N([H{ann}])C[$]')):
     for w in WEIGHTS:
         if w[1] == 1.0:
             continue
-        for free in _subsets(FREE, 1):
+        for free in _subsets(pool, 1, need):
             for ann, positional in atom_forms(w, None, free):
                 for r in reuse:
                     base, uses = _base_uses(r)
-                    for tmpl in ('[$]C([H{ann}])[$]', '[H{ann}]C([$])[$]', '[$]N([H{ann}])C[$]'):
+                    for tmpl in templates:
                         text = '%s.{#F=%s,#G=[$]CC[$]}' % (base, tmpl.format(ann=ann))
                         yield {'kind': 'frag-hydrogen', 'text': text, 'uses': uses,
                                'expected': atom_expected(w, None, free), 'nontrivial': True}
 
 
-def gen_frag_coarse(max_free, reuse, thin=1):
+def gen_frag_coarse(max_free, reuse, thin=1, pool=FREE, need=None):
     n = 0
     for w in [None] + WEIGHTS:
         for x in [None, 'R']:
             for q in ([None] + CHARGES[:3] if COARSE_Q_FAMILY else [None]):
-                for free in _subsets(FREE, max_free):
+                for free in _subsets(pool, max_free, need):
                     forms = list(atom_forms(w, x, free, positional=False))
                     if q:
                         # q= as one more keyword entry, first / last
@@ -313,9 +340,9 @@ def gen_frag_coarse(max_free, reuse, thin=1):
                                'nontrivial': (1 if w else 0) + (1 if x else 0) + (1 if q else 0) + len(free) >= 2 or r > 1}
 
 
-def gen_three_level():
+def gen_three_level(pool=FREE, need=None):
     for w in [None] + WEIGHTS[:3]:
-        for free in _subsets(FREE, 2):
+        for free in _subsets(pool, 2, need):
             for ann, _ in itertools.islice(atom_forms(w, None, free, positional=False), 6):
                 text = '{[#P][#P]}.{#P=[$][#X%s][#Y][$]}.{#X=[$]CC[$],#Y=[$]CO[$]}' % ann
                 exp = {'weight': w[1] if w else 1.0}
@@ -325,20 +352,41 @@ def gen_three_level():
 
 def cases(tier, seed):
     rng = random.Random(seed * 7368787 + 14)
+    rng2 = random.Random(seed * 7368787 + 15)
+    uc = set(UC_KEYS)
     if tier == 'quick':
         yield from gen_frag_coarse(1, [1, 2, 3])
         yield from gen_three_level()
+        # one-atom fragments; free keys with upper-case letters at every level (early: cheap and discriminating)
+        yield from gen_frag_atom(2, [1, 2, 3], templates=SINGLE_ATOM_TEMPLATES, thin=2)
+        yield from gen_frag_atom(2, [1, 2, 3], pool=FREE_UC, need=uc, templates=SINGLE_ATOM_TEMPLATES, thin=4)
+        yield from gen_frag_hydrogen([1, 2], templates=SINGLE_H_TEMPLATES)
+        yield from gen_frag_coarse(2, [1, 2, 3], pool=FREE_UC, need=uc, thin=5)
+        yield from gen_three_level(pool=FREE_UC, need=uc)
+        yield from gen_frag_atom(2, [1, 2, 3], pool=FREE_UC, need=uc, thin=4)
+        yield from gen_frag_hydrogen([1, 2], pool=FREE_UC, need=uc)
         yield from gen_frag_atom(2, [1, 2, 3], thin=2)
         yield from gen_frag_hydrogen([1, 2])
         yield from gen_base_resolve(rng, 1500)
+        yield from gen_base_resolve(rng2, 300, pool=FREE_UC)
         yield from gen_base_read(2, BASE_TEMPLATES)
+        yield from gen_base_read(2, BASE_TEMPLATES, pool=FREE_UC, need=uc, thin=4)
     else:
         yield from gen_frag_coarse(2, [1, 2, 3, 4])
         yield from gen_three_level()
+        yield from gen_frag_atom(3, [1, 2, 3, 4], templates=SINGLE_ATOM_TEMPLATES)
+        yield from gen_frag_atom(3, [1, 2, 3, 4], pool=FREE_UC, need=uc, templates=SINGLE_ATOM_TEMPLATES)
+        yield from gen_frag_hydrogen([1, 2], templates=SINGLE_H_TEMPLATES)
+        yield from gen_frag_coarse(2, [1, 2, 3, 4], pool=FREE_UC, need=uc)
+        yield from gen_three_level(pool=FREE_UC, need=uc)
+        yield from gen_frag_atom(3, [1, 2, 3, 4], pool=FREE_UC, need=uc)
+        yield from gen_frag_hydrogen([1, 2, 3], pool=FREE_UC, need=uc)
         yield from gen_frag_atom(3, [1, 2, 3, 4])
         yield from gen_frag_hydrogen([1, 2, 3])
         yield from gen_base_resolve(rng, 20000)
+        yield from gen_base_resolve(rng2, 5000, pool=FREE_UC)
         yield from gen_base_read(3, BASE_TEMPLATES)
+        yield from gen_base_read(3, BASE_TEMPLATES, pool=FREE_UC, need=uc)
 
 
 # --------------------------------------------------------------------------------------------------------
@@ -348,7 +396,7 @@ def _is_number(v):
     return isinstance(v, (int, float)) and not isinstance(v, bool)
 
 
-def diff_attrs(where, exp, got, numeric_float=True, free_keys=FREE_KEYS, skip=()):
+def diff_attrs(where, exp, got, numeric_float=True, free_keys=STRAY_KEYS, skip=()):
     """[(kind, key, detail)] for the expected attributes `exp` against the observed dict `got`"""
     out = []
     for k, v in exp.items():
